@@ -43,6 +43,13 @@ func TestEntry(t *testing.T) {
 		oneMain(t)
 	case "casehist": // development aid: print the canonical history of run VERIF_INDEX of a check
 		ck := checks[os.Getenv("VERIF_CHECK")]
+		// VERIF_WARMUP=n: execute the n preceding indexes first, in this process (divergences that
+		// only show after other runs have left their mark on the runtime)
+		for i := int(envInt("VERIF_INDEX", 0)) - int(envInt("VERIF_WARMUP", 0)); i < int(envInt("VERIF_INDEX", 0)); i++ {
+			if i >= 0 {
+				ck.Run(t, caseFor(ck, verifSeed(), os.Getenv("VERIF_TIER"), i))
+			}
+		}
 		c := caseFor(ck, verifSeed(), os.Getenv("VERIF_TIER"), int(envInt("VERIF_INDEX", 0)))
 		o := ck.Run(t, c)
 		for _, h := range o.History {
@@ -311,10 +318,22 @@ func replayMain(t *testing.T) int {
 		return 2
 	}
 	var o *Outcome
-	if ck.Isolated {
-		o = runIsolated(os.Args[0], rf.Case)
-	} else {
-		o = ck.Run(t, rf.Case)
+	attempts := 1
+	if ck.Statistical {
+		attempts = 60 // the runtime chooses the interleaving: the same case is executed until it shows again
+	}
+	for a := 1; a <= attempts; a++ {
+		if ck.Isolated {
+			o = runIsolated(os.Args[0], rf.Case)
+		} else {
+			o = ck.Run(t, rf.Case)
+		}
+		if _, v := firstSig(o, rf.Signature); v != nil {
+			if attempts > 1 {
+				fmt.Printf("statistical variant: reproduced on attempt %d of at most %d\n", a, attempts)
+			}
+			break
+		}
 	}
 	if os.Getenv("VERIF_HISTORY") != "" {
 		for _, h := range o.History {
@@ -911,6 +930,10 @@ func selftestMain() int {
 			}
 			fmt.Printf("selftest %s: %d runs x %d repetitions (GOMAXPROCS %s): %d divergent, %d digests collected\n",
 				ck.key(), nruns, len(reps), strings.Join(reps, ","), div, len(results[0]))
+			if ck.Statistical {
+				fmt.Printf("  (%s is a statistical variant: the Go runtime, not the simulator, picks the interleaving; divergence is expected and does not count)\n", ck.key())
+				continue
+			}
 			if div > 0 || len(results[0]) < nruns {
 				bad++
 			}
